@@ -43,7 +43,7 @@ func c20GCSRequest(d *draws, uploadID string) HReq {
 		q.Set("uploadType", []string{"media", "multipart", "resumable", "junk", ""}[d.n(5)])
 	case 1:
 		q.Set("uploadType", "media")
-		q.Set("name", []string{"x", "", "dir/y.txt", "a b"}[d.n(4)])
+		q.Set("name", []string{"x", "", "dir/y.txt", "a b", "k\xff", "\xc3\x28/z"}[d.n(6)]) // the last two are not valid UTF-8
 	case 2:
 		q.Set("upload_id", []string{uploadID, "999", "abc", "", "-1"}[d.n(5)])
 	}
